@@ -266,6 +266,9 @@ def run(ctx: Ctx) -> None:
     ctx.call(link_mode, "4")
     ctx.call(lock_typestate, "5")
     ctx.call(skip_locks, "6")
+    from ..kinds import signature_defaults
+
+    ctx.call(signature_defaults, "6d", {"states/pool.py:image_lock": {"timeout": "300"}}, "bounded lock wait")
 
 
 MUTANTS = [
